@@ -25,6 +25,13 @@ def run(ck, P):
         topic = t.get("v") if t["k"] == "str" else None
         ck.call_sites += 1
         ck.analysed(ev.fn)
+        if topic is None:
+            # which notification goes out is fixed by the transition being made, not looked up at run time (a hook that changes the
+            # module's state in between would flip it)
+            ck.ob("C19.1-SITES", ev.fn.site("topic fixed by the call site@%d" % ev.line), False,
+                  "the topic of the notification sent at line %d in %s is computed at run time (%s): a lifecycle hook that changes the module's state "
+                  "before this point makes the transition announce the opposite notification" % (ev.line, ev.fn.name, S(ev.args[3])[:80]))
+            continue
         sites.setdefault(topic, []).append(ev)
         ck.ob("C19.1-SITES", ev.fn.site("emit %s" % topic), topic in want and want[topic] == ev.fn.name,
               "%s emitted at line %d in %s" % (topic, ev.line, ev.fn.name))
@@ -33,6 +40,15 @@ def run(ck, P):
               "%s is never emitted: %s no longer announces its transition" % (t, want[t]))
         sites[t] = []
     ck.ob("C19.1-SITES", tsm.site("private"), not tsm.public, "tell_system_pubsub_msg is not exported", nontrivial=False)
+    # the emitter does not second-guess its callers: a notification asked for is sent whatever the sender's or the context's state (the
+    # STOPPED notification of a module being deregistered is sent after the module left the context's map)
+    import re as _re
+    refus = [(a_, p_, g_.retval, g_.line) for g_ in rules.bailouts(tsm) if isinstance(g_.retval, int) and g_.retval < 0
+             for (a_, p_) in g_.cont_atoms if not _re.match(r"^[\w>.*\-\[\]&]+$", a_) and ("->" in a_ or _re.search(r"\b[a-z_]\w*\(", a_))]
+    ck.ob("C19.1-SITES", tsm.site("never refuses on state"), not refus,
+          "tell_system_pubsub_msg has no refusal that depends on module or context state" if not refus else
+          "tell_system_pubsub_msg returns %d unless %s%s (line %d): a transition whose notification is asked for while that fails (e.g. the STOPPED of a "
+          "module being deregistered, already out of the context's map) is not mirrored by a notification" % (refus[0][2], "" if refus[0][1] else "!", refus[0][0], refus[0][3]))
 
     # ------------------------------------------------------------------ 2. one per transition
     ck.rule("C19.2-ONE-PER-TRANSITION", "R-PAIR: in start/stop every path that stores the new state emits exactly one notification unless the "
